@@ -213,6 +213,18 @@ class Source(tuple, metaclass=abc.ABCMeta):
     def __hash__(self):
         return hash(self.__class__.__module__) ^ hash(self.__class__.__qualname__) ^ super().__hash__()
 
+    def __eq__(self, other):
+        # consistent with __hash__: sources of different types (i.e. tables of different names) are never equal
+        return (
+            isinstance(other, Source)
+            and other.__class__.__module__ == self.__class__.__module__
+            and other.__class__.__qualname__ == self.__class__.__qualname__
+            and super().__eq__(other)
+        )
+
+    def __ne__(self, other):
+        return not self == other
+
     def __repr__(self):
         return f'{self.__class__.__name__}({", ".join(repr(a) for a in self)})'
 
